@@ -3,6 +3,7 @@
 usage: trymut.py <rule or prop> <file> <old> <new> [<file> <old> <new> ...]
 Builds first (go build ./...) to make sure the mutant compiles."""
 import subprocess, sys, os
+REPO = os.environ.get("REPO", "/repo")
 env = dict(os.environ, PATH="/opt/veriftools/go1.26.8/bin:" + os.environ["PATH"], GOFLAGS="-mod=mod", GOPROXY="off", GOSUMDB="off", GOTOOLCHAIN="local")
 env.pop("GOWORK", None)
 what = sys.argv[1]
@@ -10,18 +11,18 @@ args = sys.argv[2:]
 try:
     for i in range(0, len(args), 3):
         f, old, new = args[i], args[i+1], args[i+2]
-        p = os.path.join("/repo", f)
+        p = os.path.join(REPO, f)
         s = open(p).read()
         if old not in s:
             print("PATTERN NOT FOUND in", f); sys.exit(3)
         open(p, "w").write(s.replace(old, new, 1))
-    r = subprocess.run(["go", "build", "./..."], cwd="/repo", env=env, capture_output=True, text=True)
+    r = subprocess.run(["go", "build", "./..."], cwd=REPO, env=env, capture_output=True, text=True)
     if r.returncode != 0:
         print("MUTANT DOES NOT COMPILE\n", r.stderr); sys.exit(4)
     binp = os.environ.get("KLEVLINT", "/tmp/klevlint")
     flag = "-rule" if what.startswith("R") else "-p"
-    r = subprocess.run([binp, "-verif", "/verif", "-list", flag, what], env=env, capture_output=True, text=True)
+    r = subprocess.run([binp, "-verif", "/verif", "-repo", REPO, "-list", flag, what], env=env, capture_output=True, text=True)
     out = [l for l in r.stdout.splitlines() if "discharged" not in l and not l.startswith("    ") or "violated" in l or "undecided" in l]
     print("\n".join(out)); print(r.stderr[-2000:])
 finally:
-    subprocess.run(["git", "-C", "/repo", "checkout", "--", "."])
+    subprocess.run(["git", "-C", REPO, "checkout", "--", "."])
